@@ -52,7 +52,11 @@ def report(pid, rejections, extra_violations=()):
     nviol, seen_known, seen_keys = 0, set(), set()
     for r in rejections:
         key = finding_key(r)
-        hit = [k for k in kn if matches(k, key)]
+        # A recorded value deviation (keyed by solution and evaluator) is never a reason to overlook a rejection: the
+        # evaluator is judged against its recorded variant system (or, where none could be established, not judged at
+        # all), so a rejection there is a NEW deviation of the same evaluator.  The KNOWN-FINDING lines of the value
+        # findings come from their own confirmation step.
+        hit = [k for k in kn if matches(k, key) and not ('sol' in k.get('match', {}) and 'fn' in k.get('match', {}))]
         if hit:
             if hit[0]['id'] not in seen_known:
                 seen_known.add(hit[0]['id'])
@@ -323,7 +327,8 @@ def value_check(pid, tier_, plan, kbits=14, rule='', extra_execs=(), all_known=F
     for sol, evs, na, npt in plan:        # at most 6 assignments per process (one TLC batch must stay small)
         left = na
         while left > 0:
-            execs.append(gen.gen_values(rng, sol, nassign=min(6, left), npts=npt, evaluators=evs, mix=mix))
+            execs.append(gen.gen_values(rng, sol, nassign=min(6, left), npts=npt, evaluators=evs, mix=mix,
+                                        oat=(6 if tier_ == 'quick' else 40) if left <= 6 else 0))
             left -= 6
     execs += list(extra_execs)
     # exact zeros: one assignment per zeroable parameter with only that parameter exactly 0 (all of them for solutions with
@@ -334,6 +339,9 @@ def value_check(pid, tier_, plan, kbits=14, rule='', extra_execs=(), all_known=F
             continue
         pick = list(ks) if (len(ks) <= 16 or tier_ == 'thorough') else rng.sample(ks, 8)
         zp = [{k} for k in pick] + [set(k for k in ks if rng.random() < 0.33)]
+        # ... and every PAIR of them for the small solutions (a guard on two parameters at once)
+        if len(ks) <= (16 if tier_ == 'quick' else 40):
+            zp += [{a, b} for i, a in enumerate(ks) for b in ks[i + 1:]]
         for i in range(0, len(zp), 6):
             execs.append(gen.gen_values(rng, sol, nassign=len(zp[i:i + 6]), npts=1, evaluators=evs, zero_plan=zp[i:i + 6]))
             execs[-1].label = 'zeros:%s' % sol
